@@ -118,10 +118,12 @@ def _run_query(handler_reply, call, chunk=None, event=None):
             pipe.inject(evbytes)
 
     def handler(line):
-        state["line"] = line
-        if event and event[1] == "inflight":
-            return evbytes + wire.encode_reply(handler_reply)
-        return handler_reply
+        state.setdefault("line", line)
+        state.setdefault("lines", []).append(line)
+        rep = handler_reply(line) if callable(handler_reply) else handler_reply
+        if event and event[1] == "inflight" and len(state["lines"]) == 1:
+            return evbytes + (rep if isinstance(rep, bytes) else wire.encode_reply(rep))
+        return rep
     srv.handler = handler
     pipe.chunk = chunk
     raised = None
@@ -131,6 +133,7 @@ def _run_query(handler_reply, call, chunk=None, event=None):
     except Exception as e:
         raised = e
     pipe.pump()
+    pipe.all_lines = state.get("lines", [])
     return pipe, w, raised, state.get("line")
 
 
@@ -142,12 +145,26 @@ def drive_getinfo(case):
     res = Result()
     pairs = [(k, v) for k, v in case["pairs"]]
     keys = [k for k, v in pairs]
-    reply = wire.getinfo_reply(pairs)
+    values = dict(pairs)
+
+    def reply(line):
+        # Tor answers whatever is asked: the statement fixes the result, not how the keys are spread over commands
+        asked = line.split()[1:] if line.startswith("GETINFO ") else None
+        if not asked or any(k not in values for k in asked):
+            return wire.err(552, 'Unrecognized key "%s"' % (line,))
+        return wire.getinfo_reply([(k, values[k]) for k in asked])
     pipe, w, raised, line = _run_query(reply, lambda p: p.get_info(*keys), case.get("chunk"), case.get("event"))
     if case.get("event"):
         res.label("event-%s-%s" % tuple(case["event"]))
-    if line != "GETINFO " + " ".join(keys):
-        res.bad("getinfo-wire", "wrote %r" % (line,))
+    asked_all = []
+    for ln in pipe.all_lines:
+        if not ln.startswith("GETINFO ") or any(k not in values for k in ln.split()[1:]):
+            res.bad("getinfo-wire", "wrote %r for get_info%r" % (ln, tuple(keys)))
+        asked_all.extend(ln.split()[1:])
+    if set(asked_all) != set(keys):
+        res.bad("getinfo-wire", "wrote %r for get_info%r" % (pipe.all_lines, tuple(keys)))
+    if len(pipe.all_lines) > 1:
+        res.label("keys-spread-over-several-commands")
     res.nontrivial = any((" " in v and "=" in v.split(" ", 1)[1]) or _quoted(v) for k, v in pairs)
     if len(pairs) > 1:
         res.label("multi-key")
@@ -246,7 +263,7 @@ def drive_getconf(case):
     pipe, w, raised, line = _run_query(reply, call, None, case.get("event"))
     if case.get("event"):
         res.label("event-%s-%s" % tuple(case["event"]))
-    if line != "GETCONF " + asked:
+    if (line or "").lower().split() != ["getconf", asked.lower()]:      # Tor matches option names case-insensitively
         res.bad("getconf-wire", "wrote %r" % (line,))
     res.nontrivial = values is None or values == [""] or len(values) > 1 or any(_quoted(v) for v in values)
     res.label("unset" if values is None else "empty" if values == [""] else "multi" if len(values) > 1 else "single")
